@@ -17,17 +17,26 @@
 (* they are on (so the model is able to see the failure modes C16 names):    *)
 (*   SharedScratch   one static scratch buffer used by all threads           *)
 (*   LenBeforeWrite  resize sets the length before writing the new cells     *)
+(*   Memo            a one-entry "last result" shortcut keyed by a PREFIX of  *)
+(*                   the input ("thread": one slot per thread, "global": one  *)
+(*                   slot for all): a later call whose input shares the       *)
+(*                   prefix returns the remembered result                     *)
 (***************************************************************************)
 EXTENDS Naturals, Sequences, FiniteSets, TLC
 
-CONSTANTS Threads, Inputs, CAP, Garbage, SharedScratch, LenBeforeWrite
+CONSTANTS Threads, Inputs, CAP, Garbage, SharedScratch, LenBeforeWrite, Memo
 
 \* an input is a short sequence of small numbers ("digits"); the result of a
 \* call is their weighted sum computed through the scratch vector
 Result(inp) == LET n == Len(inp) IN IF n = 0 THEN 0 ELSE inp[1] * 4 + (IF n > 1 THEN inp[2] * 2 ELSE 0) + n
 
-VARIABLES pc, arg, len, stack, shared, out, pending
-vars == <<pc, arg, len, stack, shared, out, pending>>
+VARIABLES pc, arg, len, stack, shared, out, pending, memo
+vars == <<pc, arg, len, stack, shared, out, pending, memo>>
+
+\* the memo slot a thread uses, and the (too coarse) key of an input: its first element
+Slot(t) == IF Memo = "global" THEN CHOOSE x \in Threads : TRUE ELSE t
+KeyOf(inp) == IF inp = <<>> THEN 0 ELSE inp[1]
+NoMemo == [key |-> 99, val |-> 0]       \* no input starts with 99
 
 \* the cells a thread's scratch vector occupies: its own stack frame, or the shared buffer
 Cells(t) == IF SharedScratch THEN shared ELSE stack[t]
@@ -42,14 +51,18 @@ Init ==
   /\ shared \in [1..CAP -> Garbage]
   /\ out = [t \in Threads |-> 0]
   /\ pending = [t \in Threads |-> 0]
+  /\ memo = [t \in Threads |-> NoMemo]
 
 \* parse_float(input): StackVec::new() -- length 0, storage untouched
 Call(t, inp) ==
   /\ pc[t] = "idle" /\ pending[t] < 2
-  /\ pc' = [pc EXCEPT ![t] = "push"]
   /\ arg' = [arg EXCEPT ![t] = inp]
   /\ len' = [len EXCEPT ![t] = 0]
-  /\ UNCHANGED <<stack, shared, out, pending>>
+  /\ IF Memo # "none" /\ memo[Slot(t)].key = KeyOf(inp)
+     THEN \* the shortcut: return what was remembered for this key
+          pc' = [pc EXCEPT ![t] = "ret"] /\ out' = [out EXCEPT ![t] = memo[Slot(t)].val]
+     ELSE pc' = [pc EXCEPT ![t] = "push"] /\ UNCHANGED out
+  /\ UNCHANGED <<stack, shared, pending, memo>>
 
 \* try_extend: write the digits, then set the length
 Push(t) ==
@@ -58,7 +71,7 @@ Push(t) ==
          c == [k \in 1..CAP |-> IF k <= n THEN arg[t][k] ELSE Cells(t)[k]]
      IN SetCells(t, c) /\ len' = [len EXCEPT ![t] = n]
   /\ pc' = [pc EXCEPT ![t] = "resize"]
-  /\ UNCHANGED <<arg, out, pending>>
+  /\ UNCHANGED <<arg, out, pending, memo>>
 
 \* try_resize(CAP, 0) in two steps: (correct) write the cells, then the length
 ResizeWrite(t) ==
@@ -67,20 +80,20 @@ ResizeWrite(t) ==
      THEN len' = [len EXCEPT ![t] = CAP] /\ UNCHANGED <<stack, shared>>
      ELSE SetCells(t, [k \in 1..CAP |-> IF k <= len[t] THEN Cells(t)[k] ELSE 0]) /\ UNCHANGED len
   /\ pc' = [pc EXCEPT ![t] = "resize2"]
-  /\ UNCHANGED <<arg, out, pending>>
+  /\ UNCHANGED <<arg, out, pending, memo>>
 \* a read of the whole vector may happen between the two steps (a carry loop): it reads cells below len only
 Peek(t) ==
   /\ pc[t] = "resize2"
   /\ out' = [out EXCEPT ![t] = IF len[t] >= 2 THEN Cells(t)[1] * 4 + Cells(t)[2] * 2 ELSE IF len[t] = 1 THEN Cells(t)[1] * 4 ELSE 0]
   /\ pc' = [pc EXCEPT ![t] = "resize3"]
-  /\ UNCHANGED <<arg, len, stack, shared, pending>>
+  /\ UNCHANGED <<arg, len, stack, shared, pending, memo>>
 ResizeFinish(t) ==
   /\ pc[t] = "resize3"
   /\ IF LenBeforeWrite
      THEN SetCells(t, [k \in 1..CAP |-> IF k <= Len(arg[t]) THEN Cells(t)[k] ELSE 0]) /\ UNCHANGED len
      ELSE len' = [len EXCEPT ![t] = CAP] /\ UNCHANGED <<stack, shared>>
   /\ pc' = [pc EXCEPT ![t] = "compute"]
-  /\ UNCHANGED <<arg, out, pending>>
+  /\ UNCHANGED <<arg, out, pending, memo>>
 
 \* the result reads cells 1..len (all of them, after the resize)
 Compute(t) ==
@@ -89,13 +102,14 @@ Compute(t) ==
      out' = [out EXCEPT ![t] = c[1] * 4 + c[2] * 2 + Len(arg[t]) +
                                (IF CAP >= 3 THEN c[3] * 0 ELSE 0)]
   /\ pc' = [pc EXCEPT ![t] = "ret"]
-  /\ UNCHANGED <<arg, len, stack, shared, pending>>
+  /\ UNCHANGED <<arg, len, stack, shared, pending, memo>>
 
 \* return: the frame is popped, its contents stay behind as garbage for the next call
 Return(t) ==
   /\ pc[t] = "ret"
   /\ pc' = [pc EXCEPT ![t] = "idle"]
   /\ pending' = [pending EXCEPT ![t] = pending[t] + 1]
+  /\ memo' = IF Memo = "none" THEN memo ELSE [memo EXCEPT ![Slot(t)] = [key |-> KeyOf(arg[t]), val |-> out[t]]]
   /\ UNCHANGED <<arg, len, stack, shared, out>>
 
 Next == \E t \in Threads : \/ (\E inp \in Inputs : Call(t, inp)) \/ Push(t) \/ ResizeWrite(t) \/ Peek(t)
